@@ -63,6 +63,10 @@ POOL = ["set_index-a", "sort-a", "sort-b", "filter", "sum", "groupby-sum", "merg
 UNORDERED_PARTS = {"merge-inner", "shuffle-tasks", "drop_duplicates", "value_counts", "unique", "groupby-sum", "groupby-agg", "set_index-a", "sort-a", "sort-b", "concat", "nlargest"}
 
 
+def _nth(i, frames):
+    return frames[i]
+
+
 def observe(c):
     o = c.optimize()
     res = c.compute()
@@ -191,6 +195,38 @@ def run(run):
             if got[0] == "raise" or got[1][:3] != (40, int(b2.x.sum()), 6) or got[1][3] != 1000:
                 run.violation("re-reading a dataset rewritten in place (%s) still shows the old plan: (len, sum, len(loc[1005:1010]), first division) = %s, expected (40, %d, 6, 1000); first read was %s" % (
                     reader or "fsspec", got[1], int(b2.x.sum()), obs1), {"kind": "rewrite-inplace", "reader": str(reader)})
+        # statistics caches of the parquet readers (process-wide, keyed by file): every order of "plan a projected query"
+        # (samples some files), "ask for len()" and "ask for divisions" must give the answers of the data
+        path3 = os.path.join(tmp, "uneven")
+        sizes = [700, 40, 260, 10, 500, 90, 330]                 # rows per file: size order differs from file order
+        frames, start = [], 0
+        for nrows in sizes:
+            frames.append(pd.DataFrame({"a": range(start, start + nrows), "b": [float(i) for i in range(nrows)], "c": ["x" * (i % 7) for i in range(nrows)]},
+                                       index=pd.Index(range(start, start + nrows), name="i")))
+            start += nrows
+        whole = pd.concat(frames)
+        rt.dx.from_map(_nth, list(range(len(frames))), args=[frames], meta=frames[0].iloc[:0], divisions=tuple([f.index[0] for f in frames] + [frames[-1].index[-1]])).to_parquet(path3)
+        acts = {
+            "plan projected": lambda rd: (rd[["a"]] + 1).optimize(), "compute projected": lambda rd: int((rd[["a"]] + 1).a.sum().compute()),
+            "len": lambda rd: len(rd), "len of projection": lambda rd: len(rd[["b"]]), "divisions": lambda rd: tuple(rd.divisions), "partition lengths": lambda rd: tuple(rd.map_partitions(len).compute()),
+        }
+        expect = {"compute projected": int((whole.a + 1).sum()), "len": len(whole), "len of projection": len(whole), "partition lengths": tuple(sizes)}
+        import itertools as _it
+        orders = list(_it.permutations(["plan projected", "len", "divisions"])) + [("compute projected", "len of projection", "partition lengths", "len"), ("len", "plan projected", "len")]
+        for reader in ({}, {"filesystem": "arrow"}):
+            for cd in (True, False):
+                for order in orders:
+                    for a in order:
+                        rd = rt.dx.read_parquet(path3, calculate_divisions=cd, **reader)
+                        run.count(("stats-history", str(reader), cd, order, a))
+                        got = try_(lambda: acts[a](rd))
+                        case = {"kind": "stats-history", "reader": str(reader), "calculate_divisions": cd, "order": list(order), "step": a}
+                        if got[0] == "raise":
+                            run.violation("parquet statistics history %s (%s, calculate_divisions=%s): %s fails: %s" % (list(order), reader or "fsspec", cd, a, got[1]), case)
+                        elif a in expect and got[1] != expect[a]:
+                            run.violation("parquet statistics history %s (%s, calculate_divisions=%s): %s gives %s, the data says %s" % (list(order), reader or "fsspec", cd, a, _short(got[1]), _short(expect[a])), case)
+                        elif a == "divisions" and cd and got[1][0] is not None and got[1] != tuple([f.index[0] for f in frames] + [frames[-1].index[-1]]):
+                            run.violation("parquet statistics history %s (%s): divisions %s, the files hold %s" % (list(order), reader or "fsspec", _short(got[1]), [f.index[0] for f in frames]), case)
     finally:
         import shutil
         shutil.rmtree(tmp, ignore_errors=True)
